@@ -4,10 +4,11 @@ import Paho.Driver.Props
 import Paho.Driver.Codec
 import Paho.Driver.Decode
 import Paho.Driver.Reader
+import Paho.Driver.LF
 open Paho.Driver
 
 def drivers : List (String × Drv) :=
-  [("trie", trieDrv), ("mid", midDrv), ("validate", validateDrv), ("session", sessionDrv), ("session-inv", sessionInvDrv), ("props", propsDrv), ("codec", codecDrv), ("decode", decodeDrv), ("reader", readerDrv)]
+  [("trie", trieDrv), ("mid", midDrv), ("validate", validateDrv), ("session", sessionDrv), ("session-inv", sessionInvDrv), ("props", propsDrv), ("codec", codecDrv), ("decode", decodeDrv), ("reader", readerDrv), ("loopforever", lfDrv)]
 
 def main (args : List String) : IO UInt32 := do
   match args with
